@@ -1,6 +1,6 @@
 import PoxModel.Model.PacketLayout
 /-! Generic struct-layout round trip (DESIGN Appendix D.6), core only. -/
-namespace Pox.Layout
+namespace Pox.PktLayout
 open Pox
 
 attribute [simp] beEnc_length
@@ -64,4 +64,4 @@ theorem encode_some_of_fits (L : Layout) (vs : List Val) (hf : fits L vs) : ∃ 
   let ⟨bs, he, _, _⟩ := decode_encode L vs [] hf
   ⟨bs, he⟩
 
-end Pox.Layout
+end Pox.PktLayout
